@@ -142,13 +142,36 @@ def _build(node):
         if node.get("kwvals"):
             kwp = node["inner"]["kwp"]
             kw = {n: to_jax(node["kwvals"][n], kwp[n]) for n in sorted(kwp)}
-        return inner(*stored, **kw)
+        gf = inner(*stored, **kw)
+        INNER_OF[id(gf)] = (inner, gf)
+        return gf
     if k == "partial":
         inner = build(node["inner"])
         ins, _ = sig(node["inner"])
         stored = [to_jax(v, t) for v, t in zip(node["stored"], ins)]
-        return inner.partial_apply(*stored)
+        gf = inner.partial_apply(*stored)
+        INNER_OF[id(gf)] = (inner, gf)
+        return gf
     raise ValueError(k)
+
+
+# closure / partial object -> (the generative function it partially applies, itself)
+INNER_OF = {}
+
+
+def sibling(gf, node2):
+    """Another partial application of the SAME underlying generative function
+    object, with node2's stored arguments (C32: applications must not interfere)."""
+    inner, _ = INNER_OF[id(gf)]
+    ins, _ = sig(node2["inner"])
+    stored = [to_jax(v, t) for v, t in zip(node2["stored"], ins)]
+    if node2["k"] == "partial":
+        return inner.partial_apply(*stored)
+    kw = {}
+    if node2.get("kwvals"):
+        kwp = node2["inner"]["kwp"]
+        kw = {n: to_jax(node2["kwvals"][n], kwp[n]) for n in sorted(kwp)}
+    return inner(*stored, **kw)
 
 
 # --------------------------------------------------------------- values
